@@ -127,6 +127,10 @@ func c18Run(c *Ctx, idx int) {
 				continue
 			}
 		}
+		mp := ref.Search(piped, doc)
+		if MultiFaultOK(mp, want, got) {
+			continue
+		}
 		if !SameOutcome(want, got, loose) {
 			c.Report(Violation{Rule: "C18/requery", Expr: piped, Data: gen.Describe(goDoc), Got: ShowOut(got) + "  (Search(" + e2 + ", r1) with r1 = " + clipS(gen.Describe(r1), 300) + ")", Want: ShowOut(want)})
 		}
